@@ -58,6 +58,13 @@ func (sb *switchboard) addConn(conn net.Conn) {
 	// the conn must be in the map before the incremented count is published, otherwise a
 	// concurrent pickRandConn can draw an id that is not stored yet and break a healthy session
 	sb.addConnM.Lock()
+	if atomic.LoadUint32(&sb.broken) == 1 || sb.session.IsClosed() {
+		// the session has been torn down (closeAll holds addConnM while it sweeps: a connection is either
+		// stored before the sweep or refused here): nobody would ever close this connection
+		sb.addConnM.Unlock()
+		conn.Close()
+		return
+	}
 	connId := atomic.LoadUint32(&sb.connsCount)
 	sb.conns.Store(connId, conn)
 	common.VerifPoint("switchboard.addConn:between")
@@ -139,6 +146,8 @@ func (sb *switchboard) pickRandConn() (net.Conn, error) {
 
 // actively triggered by session.Close()
 func (sb *switchboard) closeAll() {
+	sb.addConnM.Lock()
+	defer sb.addConnM.Unlock()
 	if !atomic.CompareAndSwapUint32(&sb.broken, 0, 1) {
 		return
 	}
